@@ -306,13 +306,15 @@ impl ZchState {
                     (true, true) => ZchOutput::ShiftAltGr(osc),
                 })
         {
-            self.zchd.zchd_characters_to_delete_on_next_activation -= 1;
+            // The space was counted in both counts when it was added (see there). A full
+            // release has reset the first one since: then only the other count, which a later
+            // followup chord erases by, still contains the space. Going negative instead would
+            // make a new first chord that begins with this punctuation key erase one character
+            // too few.
             if self.zchd.zchd_same_hold_activation_count > 0 {
-                // Still in the hold of the activation that added the space: it was counted in
-                // both (see where it is added). After a full release the count above has been
-                // reset and going negative makes up for the space in the other count.
-                self.zchd.zchd_prior_activation_output_count -= 1;
+                self.zchd.zchd_characters_to_delete_on_next_activation -= 1;
             }
+            self.zchd.zchd_prior_activation_output_count -= 1;
             kb.press_key(OsCode::KEY_BACKSPACE)?;
             kb.release_key(OsCode::KEY_BACKSPACE)?;
         }
@@ -426,6 +428,11 @@ impl ZchState {
                     // What a later followup has to erase grows by what this hold has put on
                     // screen: everything typed in it so far if this is its first activation,
                     // only this key if an earlier activation of the same hold was counted.
+                    if self.zchd.zchd_same_hold_activation_count == 1 && !is_prioritized_activation {
+                        // A first chord starts a new path: what an earlier, unrelated activation
+                        // left on screen is not for this path's followups to erase.
+                        self.zchd.zchd_prior_activation_output_count = 0;
+                    }
                     self.zchd.zchd_prior_activation_output_count +=
                         if self.zchd.zchd_same_hold_activation_count == 1 {
                             self.zchd.zchd_characters_to_delete_on_next_activation
